@@ -426,3 +426,150 @@ Proof.
   - intros _. lia.
   - intros _. lia.
 Qed.
+
+(* ---------- trace ---------- *)
+Lemma elt_sub (l : list Z) from to j : 0 <= from -> 0 <= j < to - from -> to <= zlen l ->
+  elt (sub l from to) j = elt l (from + j).
+Proof. intros Hf Hj Ht. rewrite (elt_nth (sub l from to)) by lia. now apply sub_nth. Qed.
+
+Lemma NoCommon_left a b ai bi s : NoCommon a b -> 1 <= zlen a -> 1 <= zlen b -> Good a b ai bi s ->
+  NoCommon (sub a 0 ai) (sub b 0 bi).
+Proof.
+  intros Hnc Hm Hn (G1 & G2 & G3 & G4 & G5 & G6 & G7 & G8 & G9).
+  assert (La : zlen (sub a 0 ai) = ai) by (rewrite sub_length; lia).
+  assert (Lb : zlen (sub b 0 bi) = bi) by (rewrite sub_length; lia).
+  unfold NoCommon. rewrite La, Lb. intros Ha Hb.
+  rewrite !elt_sub by lia. rewrite !Z.add_0_l. destruct (Hnc Hm Hn) as [H0 _]. split; [exact H0|].
+  apply G8; lia.
+Qed.
+
+Lemma NoCommon_right a b ai bi s : NoCommon a b -> 1 <= zlen a -> 1 <= zlen b -> Good a b ai bi s ->
+  NoCommon (sub a (ai + s) (zlen a)) (sub b (bi + s) (zlen b)).
+Proof.
+  intros Hnc Hm Hn (G1 & G2 & G3 & G4 & G5 & G6 & G7 & G8 & G9).
+  assert (La : zlen (sub a (ai + s) (zlen a)) = zlen a - (ai + s)) by (rewrite sub_length; lia).
+  assert (Lb : zlen (sub b (bi + s) (zlen b)) = zlen b - (bi + s)) by (rewrite sub_length; lia).
+  unfold NoCommon. rewrite La, Lb. intros Ha Hb.
+  rewrite !elt_sub by lia. destruct (Hnc Hm Hn) as [_ H1]. split.
+  - rewrite !Z.add_0_r. apply G9; lia.
+  - replace (ai + s + (zlen a - (ai + s) - 1)) with (zlen a - 1) by lia.
+    replace (bi + s + (zlen b - (bi + s) - 1)) with (zlen b - 1) by lia. exact H1.
+Qed.
+
+(* trace never fails: with fuel > |a|+|b|, a buffer of the size lcs allocates, and no common first / last
+   element (the precondition stated in diff.go), it returns a script and keeps the buffer's length *)
+Theorem trace_total : forall fuel a b buf chunks,
+  zlen a + zlen b < Z.of_nat fuel -> 2 * (zlen a + zlen b + 2) <= zlen buf -> NoCommon a b ->
+  exists ret buf', trace middle fuel a b buf chunks = TraceOk ret buf' /\ zlen buf' = zlen buf.
+Proof.
+  induction fuel as [|f IH]; intros a b buf chunks Hfuel Hbuf Hnc.
+  { pose proof (zlen_nonneg a). pose proof (zlen_nonneg b). lia. }
+  destruct a as [|x a'].
+  { cbn [trace]. eauto. }
+  destruct b as [|y b'].
+  { destruct a' as [|? ?]; cbn [trace]; eauto. }
+  destruct a' as [|x2 a''].
+  { cbn [trace]. destruct (find_index x (y :: b') 0); eauto. }
+  destruct b' as [|y2 b''].
+  { cbn [trace]. destruct (find_index y (x :: x2 :: a'') 0); eauto. }
+  cbn [trace].
+  set (a := x :: x2 :: a'') in *. set (b := y :: y2 :: b'') in *.
+  assert (Hm : 2 <= zlen a) by (unfold a; rewrite !zlen_cons; pose proof (zlen_nonneg a''); lia).
+  assert (Hn : 2 <= zlen b) by (unfold b; rewrite !zlen_cons; pose proof (zlen_nonneg b''); lia).
+  destruct (middle_total a b buf Hm Hn Hbuf) as (ai & bi & s & buf1 & Em). rewrite Em.
+  destruct (middle_good a b buf ai bi s buf1 Hm Hn Hbuf Hnc Em) as [Hl1 HG].
+  pose proof HG as (G1 & G2 & G3 & G4 & G5 & G6 & G7 & G8 & G9).
+  replace ((ai =? zlen a) && (bi =? zlen b) || (ai =? 0) && (bi =? 0)) with false.
+  2:{ symmetry. apply orb_false_iff. split; apply andb_false_iff.
+      - destruct (Z.eqb_spec ai (zlen a)); [|now left]. destruct (Z.eqb_spec bi (zlen b)); [|now right]. tauto.
+      - destruct (Z.eqb_spec ai 0); [|now left]. destruct (Z.eqb_spec bi 0); [|now right]. tauto. }
+  replace ((0 <=? ai) && (0 <=? bi) && (0 <=? s) && (ai + s <=? zlen a) && (bi + s <=? zlen b)) with true.
+  2:{ symmetry. rewrite !andb_true_iff. repeat split; apply Z.leb_le; lia. }
+  cbn [negb].
+  destruct (IH (sub a 0 ai) (sub b 0 bi) buf1 chunks) as (ret1 & buf2 & E1 & Hl2).
+  { rewrite !sub_length by lia. lia. }
+  { rewrite !sub_length by lia. lia. }
+  { apply (NoCommon_left a b ai bi s); try assumption; lia. }
+  rewrite E1.
+  destruct (IH (sub a (ai + s) (zlen a)) (sub b (bi + s) (zlen b)) buf2
+              (if s >? 0 then ret1 ++ [mkChunk 0 0 s] else ret1)) as (ret2 & buf3 & E2 & Hl3).
+  { rewrite !sub_length by lia. lia. }
+  { rewrite !sub_length by lia. lia. }
+  { apply (NoCommon_right a b ai bi s); try assumption; lia. }
+  rewrite E2. exists ret2, buf3. split; [reflexivity|lia].
+Qed.
+
+(* ---------- lcs: the trimmed sequences have no common first / last element ---------- *)
+Lemma common_prefix_max a : forall b, (common_prefix a b < length a)%nat -> (common_prefix a b < length b)%nat ->
+  nth (common_prefix a b) a (-1) <> nth (common_prefix a b) b (-1).
+Proof.
+  induction a as [|x a IH]; intros b Ha Hb; [cbn in Ha; lia|].
+  destruct b as [|y b]; [cbn in Hb; lia|]. cbn [common_prefix] in *.
+  destruct (Z.eqb_spec x y) as [->|Hne].
+  - cbn [nth length] in *. apply IH; lia.
+  - cbn [nth]. exact Hne.
+Qed.
+
+Lemma trimmed_NoCommon a b :
+  let p := common_prefix a b in
+  let ln := (Nat.min (length a) (length b) - p)%nat in
+  let s := Nat.min ln (common_prefix (rev a) (rev b)) in
+  NoCommon (firstn (length a - p - s) (skipn p a)) (firstn (length b - p - s) (skipn p b)).
+Proof.
+  intros p ln s.
+  destruct (common_prefix_spec a b) as [_ [Hpa Hpb]]. fold p in Hpa, Hpb.
+  set (a' := firstn (length a - p - s) (skipn p a)). set (b' := firstn (length b - p - s) (skipn p b)).
+  assert (La : length a' = (length a - p - s)%nat) by (unfold a'; rewrite firstn_length, skipn_length; lia).
+  assert (Lb : length b' = (length b - p - s)%nat) by (unfold b'; rewrite firstn_length, skipn_length; lia).
+  intros Ha Hb. unfold zlen in Ha, Hb |- *.
+  assert (Ea : forall j, (j < length a')%nat -> elt a' (Z.of_nat j) = nth (p + j) a (-1)).
+  { intros j Hj. rewrite elt_nth by lia. rewrite Nat2Z.id. unfold a'. rewrite nth_firstn' by lia. apply nth_skipn'. }
+  assert (Eb : forall j, (j < length b')%nat -> elt b' (Z.of_nat j) = nth (p + j) b (-1)).
+  { intros j Hj. rewrite elt_nth by lia. rewrite Nat2Z.id. unfold b'. rewrite nth_firstn' by lia. apply nth_skipn'. }
+  split.
+  - change 0 with (Z.of_nat 0). rewrite Ea, Eb by lia. rewrite Nat.add_0_r.
+    apply common_prefix_max; fold p; lia.
+  - replace (Z.of_nat (length a') - 1) with (Z.of_nat (length a' - 1)) by lia.
+    replace (Z.of_nat (length b') - 1) with (Z.of_nat (length b' - 1)) by lia.
+    rewrite Ea, Eb by lia.
+    assert (Hs : s = common_prefix (rev a) (rev b)) by (unfold s, ln in *; lia).
+    pose proof (common_prefix_max (rev a) (rev b)) as Hmax. rewrite <- Hs, !rev_length in Hmax.
+    specialize (Hmax ltac:(lia) ltac:(lia)). rewrite !rev_nth in Hmax by lia.
+    replace (p + (length a' - 1))%nat with (length a - S s)%nat by lia.
+    replace (p + (length b' - 1))%nat with (length b - S s)%nat by lia. exact Hmax.
+Qed.
+
+(* lcs is total: log.Fatal("no snake"), the slice-bounds failures and the model's fuel exhaustion are
+   unreachable for every pair of sequences *)
+Theorem lcs_total a b : exists chunks, lcs a b = LcsOk chunks.
+Proof.
+  unfold lcs, lcs_gen.
+  set (p := common_prefix a b).
+  set (s := Nat.min (Nat.min (length a) (length b) - p) (common_prefix (rev a) (rev b))).
+  set (a' := firstn (length a - p - s) (skipn p a)). set (b' := firstn (length b - p - s) (skipn p b)).
+  destruct (trace_total (S (length a' + length b')) a' b' (repeat 0 (2 * (length a' + length b' + 2)))
+              (if (0 <? p)%nat then [mkChunk 0 0 (Z.of_nat p)] else [])) as (ret & buf' & E & _).
+  - unfold zlen. lia.
+  - unfold zlen. rewrite repeat_length. lia.
+  - apply trimmed_NoCommon.
+  - rewrite E. eauto.
+Qed.
+
+Theorem script_minimal_total a b :
+  exists chunks, lcs a b = LcsOk chunks /\ script_ok chunks a b = true /\
+    cost chunks = zlen a + zlen b - 2 * L a b /\
+    forall chunks', script_ok chunks' a b = true -> cost chunks <= cost chunks'.
+Proof.
+  destruct (lcs_total a b) as [chunks H]. exists chunks. split; [exact H|].
+  destruct (lcs_valid_and_minimal a b chunks H) as [H1 H2]. repeat split; try assumption.
+  now apply script_minimal.
+Qed.
+
+(* LineDiff therefore always renders the hunks of a minimum script *)
+Lemma line_diff_total a b : a <> b ->
+  exists chunks, lcs a b = LcsOk chunks /\ script_ok chunks a b = true /\
+    line_diff a b = Some (diff_loop chunks true a b 0 0 (mkHunk 1 1 0 0 []) []).
+Proof.
+  intro H. destruct (lcs_total a b) as [c E]. exists c. split; [exact E|]. split; [now apply lcs_correct|].
+  unfold line_diff. destruct (seq_eqb a b) eqn:Eq; [apply seq_eqb_eq in Eq; contradiction|]. now rewrite E.
+Qed.
